@@ -255,6 +255,9 @@ def extract_function(inference_state, path, module_context, name, pos, until_pos
         after_leaf = nodes[-1].get_next_leaf()
         first, second = _split_prefix_at(after_leaf, until_pos[0])
         code_block += first
+        if not code_block.endswith('\n'):
+            # The selection ended before the line break of its last statement.
+            code_block += '\n'
 
         code_block = dedent(code_block)
         if not has_ending_return_stmt:
